@@ -102,8 +102,36 @@ class Sim:
             kw["starttime"] = dt_(win[0])
         if win[1] is not None:
             kw["endtime"] = dt_(win[1])
-        self.rb = ringbuffer.DigitalRFRingbuffer(rel if rel else self.root, size=lim.get("size"), count=lim.get("count"),
-                                                 duration=lim.get("duration"), verbose=False, status_interval=None, **kw)
+        if case.get("cli"):
+            # the same ringbuffer configured through the command line (drf ringbuffer PATH -z SIZE -c COUNT -l SECONDS
+            # -s START -e END): the object the command builds is taken over just before it would start watching
+            from digital_rf import drf_command
+            import contextlib
+            import io
+            argv = ["ringbuffer", rel if rel else self.root]
+            if lim.get("size") is not None:
+                L_ = lim["size"]
+                argv += ["-z", {0: "%d" % L_, 1: "%dB" % L_, 2: ("%dKiB" % (L_ // 1024)) if L_ % 1024 == 0 else "%d" % L_}[case["cli"] % 3]]
+            if lim.get("count") is not None:
+                argv += ["-c", "%d" % lim["count"]]
+            if lim.get("duration") is not None:
+                argv += ["-l", "%g" % (lim["duration"] / 1000.0)]
+            for flag, ms in (("-s", win[0]), ("-e", win[1])):
+                if ms is not None:
+                    argv += [flag, "%d.%03d" % (ms // 1000, ms % 1000)]
+            got = []
+            real_run = ringbuffer.DigitalRFRingbuffer.run
+            ringbuffer.DigitalRFRingbuffer.run = lambda self_: got.append(self_)
+            try:
+                with contextlib.redirect_stdout(io.StringIO()):
+                    drf_command.main(argv)
+            finally:
+                ringbuffer.DigitalRFRingbuffer.run = real_run
+            self.rb = got[0]
+            self.rb.verbose = False
+        else:
+            self.rb = ringbuffer.DigitalRFRingbuffer(rel if rel else self.root, size=lim.get("size"), count=lim.get("count"),
+                                                     duration=lim.get("duration"), verbose=False, status_interval=None, **kw)
         self.evroot = self.rb.path
         self.h = self.rb.event_handler
         self.model = {}  # abs path -> [group(abs), key, size]
@@ -279,7 +307,10 @@ def run_sim(case, fail):
                         # rename of a tracked file to another valid data-file name of the same group
                         p = sim.path(op["f"])
                         q = sim.path(op["t"])
-                        if os.path.exists(p) and not os.path.exists(q) and sim.group(op["f"]) == sim.group(op["t"]):
+                        # (a rename between two matching names of which only one lies in the time window is not specified:
+                        # the filter looks at the destination's time only - see C15 - so such renames are not generated)
+                        if os.path.exists(p) and not os.path.exists(q) and sim.group(op["f"]) == sim.group(op["t"]) \
+                                and sim.in_window(op["f"]) == sim.in_window(op["t"]):
                             tracked_before = q in sim.model
                             os.rename(p, q)
                             sizes = sim.stat([op["t"]])
@@ -299,7 +330,7 @@ def run_sim(case, fail):
                     elif o == "moved_late":
                         # a moved event that arrives after the fact (the destination may already be tracked)
                         p, q = sim.path(op["f"]), sim.path(op["t"])
-                        if os.path.exists(q) and not os.path.exists(p):
+                        if os.path.exists(q) and not os.path.exists(p) and sim.in_window(op["f"]) == sim.in_window(op["t"]):
                             info["irregular"] = True
                             tracked_before = q in sim.model
                             sizes = sim.stat([op["t"]])
@@ -520,6 +551,7 @@ def _cases(draw, tier):
     # how the watched directory is named, and an optional time window (aware or naive datetimes; a start time only without
     # metadata groups, whose listing adds the forward-fill file that the event filter does not know)
     case["relroot"] = draw(st.sampled_from([None, None, None, "data", "./data/"]))
+    case["cli"] = draw(st.sampled_from([0, 0, 1, 2, 3]))  # 0: constructed through the API; else through the command line
     if draw(st.integers(0, 3)) == 0:
         keys = sorted({(T0 + s_ // 2) * 1000 + 500 * (s_ % 2) for s_ in range(slots)} | {(T0 + s_) * 1000 for s_ in range(slots)})
         a = draw(st.sampled_from(keys)) + draw(st.sampled_from([-1, 0, 0, 1]))
